@@ -26,8 +26,10 @@ POOL = [
     ("v0", "V()", "vector", ""), ("v2", "V(1,2)", "vector", ""), ("vq", "V(1/2, 2.0)", "vector", ""),
     ("d0", "{}", "dict", ""), ("d1", "{1:2}", "dict", ""), ("da", '{"a":[1]}', "dict", ""), ("ddef", "{:0}", "dict", ""),
     ("dmix", '{1.0: "x", 2: null}', "dict", ""), ("dset", "{1, 2, 3}", "dict", ""),
+    ("dfn", '{"f": id}', "dict", ""), ("dinst", '{"p": Foo(1, 2)}', "dict", ""), ("dstream", '{"s": (1 to 3)}', "dict", ""),
     ("r13", "(1 to 3)", "stream", ""), ("r11", "(1 til 1)", "stream", ""), ("r51", "(5 to 1 by (-2))", "stream", ""),
-    ("perm", "permutations([1,2])", "stream", ""), ("lmap", "(1 to 3 lazy_map (* 2))", "stream", ""),
+    ("perm", "permutations([1,2])", "stream", ""), ("wadv", "(stream([10, 20, 30]) drop 1)", "stream", ""),
+    ("wtail", "tail(stream(\"abc\"))", "stream", ""), ("lmap", "(1 to 3 lazy_map (* 2))", "stream", ""),
     ("siota", "iota(0)", "stream", "infinite"), ("srep", "repeat(1)", "stream", "infinite"),
     ("scyc", "cycle([1,2])", "stream", "infinite"),
     ("fid", "id", "func", ""), ("fplus", "+", "func", ""), ("flam1", "\\x -> x", "func", ""),
@@ -53,5 +55,5 @@ EXCLUDED = {
 
 # Reduced pool for the quick tier: one or two representatives per kind (all pairs are swept)
 QUICK = ["i0", "i1", "im1", "i2_63m", "im2_63", "i1e30", "b7", "q12", "f05", "fnan", "c1i",
-         "s0", "sabc", "y3", "l0", "l3", "lnest", "v2", "d1", "ddef",
-         "r13", "r51", "siota", "fid", "fzero", "feven", "tint", "ifoo", "nul"]
+         "s0", "sabc", "y3", "l0", "l3", "lnest", "v2", "d1", "ddef", "dfn", "wadv",
+         "r13", "r51", "siota", "scyc", "fid", "fzero", "feven", "tint", "ifoo", "nul"]
